@@ -207,14 +207,34 @@ def processLine (st : St) (line : String) : IO St := do
       if m ≠ obsS then emit st [s!"MISMATCH case={st.caseId} op={opS} model={m} impl={obsS}"] else return st
     | ["pal", hex] =>
       return { st with vc := { st.vc with palette := parsePalette hex } }
-    | ["font", id] =>
-      match (st.fonts.find? (·.1 = nat! id)).map (·.2) with
-      | none => emit st [s!"MISMATCH case={st.caseId} op={opS} unknown font"]
-      | some f =>
-        let c := VesaFb.setFont st.vc f
-        let m := s!"{c.cols} {c.rows}"
-        let st := bump { st with vc := c } s!"font_{f.gw}x{f.gh}"
-        if m ≠ obsS then emit st [s!"MISMATCH case={st.caseId} op={opS} model={m} impl={obsS}"] else return st
+    | ["font", fid] =>
+      -- `SetFont`: observation = the grid the console reports afterwards.  The model recomputes the
+      -- grid from this font and the logo rows (an unfit font gives an empty grid); later operations
+      -- are replayed on the grid the implementation really has.
+      let c0 := st.vc
+      let fontOf : Option (Option VesaFb.Font) :=
+        if fid = "-1" then some none else (st.fonts.find? (·.1 = nat! fid)).map (fun p => some p.2)
+      match fontOf, obs with
+      | none, _ => emit st [s!"MISMATCH case={st.caseId} op={opS} unknown font"]
+      | _, ["panic"] => emit st [s!"PROPFAIL case={st.caseId} clause=no-oob feature=set-font op={opS} impl=panic"]
+      | some fo, [cols, rows] =>
+        let (cols, rows) := (u32 cols, u32 rows)
+        let cm := match fo with
+          | some f => VesaFb.setFont c0 f
+          | none => c0                      -- SetFont(nil) changes nothing
+        let mut ls : List String := []
+        if (cm.cols, cm.rows) ≠ (cols, rows) then
+          ls := ls ++ [s!"MISMATCH case={st.caseId} op={opS} model={cm.cols} {cm.rows} impl={cols} {rows}"]
+        match cm.font with
+        | some f =>
+          if ¬ (rows * f.gh + cm.offsetY ≤ cm.height ∧ cols * f.gw ≤ cm.width) then
+            ls := ls ++ [s!"PROPFAIL case={st.caseId} clause=grid-fits feature=set-font op={opS} impl={obsS}"]
+        | none => pure ()
+        let st := bump st (match fo with
+          | some f => if cm.cols = 0 ∨ cm.rows = 0 then "font_unfit" else s!"font_{f.gw}x{f.gh}"
+          | none => "font_nil")
+        emit { st with vc := { cm with cols := cols, rows := rows } } ls
+      | _, _ => emit st [s!"MISMATCH case={st.caseId} op={opS} bad observation"]
     | ["hal", fid] =>
       -- the console as `hal.onConsoleInit` configured it (logo, then font — in whatever order the
       -- kernel really used): observation = offsetY, cols, rows, then the diff of the logo drawing
